@@ -121,7 +121,7 @@ fn mutate(dest: &Path, rng: &mut Rng, kind: u64) -> String {
         _ = filetime::set_file_times(p, ft, ft);
     };
     let pick = |rng: &mut Rng| -> &'static str { *rng.pick(&["a", "d/c", "d/e/f", "d/zeros", "g"]) };
-    match kind % 18 {
+    match kind % 19 {
         0 => "identical".into(),
         1 => {
             // same size, other content, same mtime: only verification can notice
@@ -197,6 +197,14 @@ fn mutate(dest: &Path, rng: &mut Rng, kind: u64) -> String {
             _ = std::fs::create_dir_all(dest.join("emptydir/now-filled"));
             _ = symlink("a", dest.join("extra-link"));
             "extras".into()
+        }
+        18 => {
+            // non-zero bytes where the snapshot has zero blocks in a file that is longer / shorter than the snapshot's
+            let p = dest.join("d/zeros");
+            let len = std::fs::metadata(&p).unwrap().len() as usize;
+            let newlen = if rng.below(2) == 0 { len + 1 + rng.below(200) as usize } else { len - 1 - rng.below(100) as usize };
+            std::fs::write(&p, vec![0xABu8; newlen]).unwrap();
+            format!("nonzero-over-zero-blocks-other-size d/zeros {newlen}")
         }
         12 => {
             // non-zero bytes where the snapshot has zero blocks, same size, new mtime
@@ -372,7 +380,7 @@ pub fn run(a: &Args) {
                     "opts":o,"snap":[],"pre":[],"post":[],"outside_pre":[],"outside_post":[]}));
                 continue;
             }
-            let mk = c + rng.below(18);
+            let mk = c + rng.below(19);
             what = mutate(&dest, &mut rng, mk);
         }
         let pre = project(&dest);
